@@ -21,7 +21,10 @@ CONSTANTS
   SubMain,     \* cli: set of BOOLEAN: a decoy `fn main()` in the second module
   BodyForms,   \* statement forms of test bodies: subset of Bodies
   FnPositions, \* where functions / helper declarations stand: subset of {"first","last","mixed"}
-  NoDups       \* BOOLEAN: leave out packages with duplicate test names (body families)
+  NoDups,      \* BOOLEAN: leave out packages with duplicate test names (body families)
+  ModShapes,   \* shapes of the module tree: subset of {"single","sub","nested"}
+  SubFnNames,  \* cli: names of unit functions that may exist in the modules below the root
+  RunMods      \* cli: module paths of the entry names passed to `run` (strings, see ModCode)
 
 Code(s) == CASE s = "a"    -> <<97>>
              [] s = "b"    -> <<98>>
@@ -34,7 +37,19 @@ Code(s) == CASE s = "a"    -> <<97>>
              [] s = "tesu" -> <<116, 101, 115, 117>>
              [] s = "main" -> MAIN
 
-ModSeqs == {<<Root>>} \cup {<<Root, <<Code(s)>>>> : s \in SubNames}
+Code120 == <<120>>   \* "x": never the name of a module of a package
+ModCode(s) == CASE s = ""    -> Root
+                [] s = "m"   -> <<Code("m")>>
+                [] s = "u"   -> <<Code("u")>>
+                [] s = "x"   -> <<Code120>>
+                [] s = "m.u" -> <<Code("m"), Code("u")>>
+                [] s = "m.x" -> <<Code("m"), Code120>>
+                [] s = "u.m" -> <<Code("u"), Code("m")>>
+
+ModSeqs == (IF "single" \in ModShapes THEN {<<Root>>} ELSE {})
+           \cup (IF "sub" \in ModShapes THEN {<<Root, <<Code(s)>>>> : s \in SubNames} ELSE {})
+           \cup (IF "nested" \in ModShapes
+                   THEN {<<Root, <<Code(s)>>, <<Code(s), Code("u")>>>> : s \in SubNames} ELSE {})
 MaxT(ms) == IF Len(ms) = 1 THEN MaxTests1 ELSE MaxTests2
 
 BaseTest(ms) == [mod : ToSet(ms), name : {Code(n) : n \in TNames}, out : {"accept", "reject"},
@@ -60,15 +75,18 @@ CliFuncSets(ms) ==
   {  (IF sg = "none" THEN {} ELSE {Fn(Root, MAIN, sg)})
      \cup F
      \cup (IF dm /\ Len(ms) > 1 THEN {Fn(ms[2], MAIN, "unit")} ELSE {})
+     \cup G
    : sg \in MainSigs, F \in SUBSET {Fn(Root, Code(n), "unit") : n \in FnNames},
-     dm \in (IF Len(ms) > 1 THEN SubMain ELSE {FALSE}) }
+     dm \in (IF Len(ms) > 1 THEN SubMain ELSE {FALSE}),
+     G \in SUBSET {Fn(ms[k], Code(n), "unit") : k \in 2..Len(ms), n \in SubFnNames} }
 
 FuncSets(ms) == IF Family = "api" THEN ApiFuncSets(ms) ELSE CliFuncSets(ms)
 
 Cmds == IF Family = "api"
-          THEN {[kind |-> "api", explicit |-> FALSE, fn |-> MAIN]}
-          ELSE {[kind |-> k, explicit |-> FALSE, fn |-> MAIN] : k \in {"check", "test", "run"}}
-               \cup {[kind |-> "run", explicit |-> TRUE, fn |-> Code(n)] : n \in RunNames}
+          THEN {[kind |-> "api", explicit |-> FALSE, mod |-> Root, fn |-> MAIN]}
+          ELSE {[kind |-> k, explicit |-> FALSE, mod |-> Root, fn |-> MAIN] : k \in {"check", "test", "run"}}
+               \cup {[kind |-> "run", explicit |-> TRUE, mod |-> ModCode(m), fn |-> Code(n)]
+                      : m \in RunMods, n \in RunNames}
 
 MCInit ==
   \E ms \in ModSeqs :
